@@ -18,3 +18,6 @@ open BsVerif.Symbols
 #print axioms C17_pattern_semantics
 #print axioms C17_symbols_elf_partial
 #print axioms C17_symbols_elf_counterexample
+#print axioms C17_symbols_loaded_registry
+#print axioms C17_symbols_registry_load_add
+#print axioms C17_symbols_registry_load_remove
